@@ -137,6 +137,11 @@ namespace rkcommon {
 
     inline bool Any::operator==(const Any &rhs) const
     {
+      // empty Anys hold no value to compare: two empty ones are equal, an
+      // empty and a non-empty one are not
+      if (!valid() || !rhs.valid())
+        return valid() == rhs.valid();
+
       return currentValue->isSame(rhs.currentValue.get());
     }
 
@@ -197,7 +202,8 @@ namespace rkcommon {
     {
       std::stringstream retval;
       retval << "Any : (currently holds value of type) --> "
-             << demangle(currentValue->valueTypeID().name());
+             << (valid() ? demangle(currentValue->valueTypeID().name())
+                         : std::string("(empty)"));
       return retval.str();
     }
 
